@@ -658,6 +658,12 @@ struct Runner {
 			else if constexpr (Z::CTX == 1) ok = &control.context() == &m.context() && &control._() == &m.context() && control.context().tag == W.ctxTag[W.cur];
 			else if constexpr (Z::CTX == 2) ok = &control.context() == &W.ctxObj[W.ctxOf[W.cur]] && &control._() == &W.ctxObj[W.ctxOf[W.cur]] && &m.context() == &W.ctxObj[W.ctxOf[W.cur]];
 			else ok = control.context() == &W.ctxObj[W.ctxOf[W.cur]] && control._() == &W.ctxObj[W.ctxOf[W.cur]] && m.context() == &W.ctxObj[W.ctxOf[W.cur]];
+			{	// the const overloads (control and machine) show the same context object
+				const C& cc = control; const Instance& cm = m;
+				if constexpr (Z::CTX == 3) ok = ok && cc.context() == control.context() && cc._() == control._() && cm.context() == m.context();
+				else ok = ok && static_cast<const void*>(&cc.context()) == static_cast<const void*>(&control.context()) && static_cast<const void*>(&cc._()) == static_cast<const void*>(&control._()) &&
+					static_cast<const void*>(&cm.context()) == static_cast<const void*>(&m.context());
+			}
 			e.ctxOk = ok;
 		}
 		observe(W.cur, e);
